@@ -207,6 +207,10 @@ func main() {
 			runLongSeq(c.N)
 			return
 		}
+		if c.Elem == "shared-walkers" {
+			runSharedWalkers(c.N)
+			return
+		}
 		if c.Elem != "" {
 			runTypedKind(c.Elem, c.Script)
 			return
@@ -215,6 +219,7 @@ func main() {
 		return
 	}
 	typedScripts()
+	runSharedWalkers(common.Pick(20000, 200000))
 	for _, n := range []int{1 << 20, 4 << 20}[:common.Pick(1, 2)] {
 		runLongSeq(n)
 	}
